@@ -44,6 +44,8 @@ def np_array(kind, vals):
         return np.array(vals, dtype=np.int8)
     if kind == "u8":
         return np.array(vals, dtype=np.uint8)
+    if kind == "u64":
+        return np.array(vals, dtype=np.uint64)
     if kind == "b":
         return np.array(vals, dtype=bool)
     if kind == "s":
@@ -163,7 +165,7 @@ def plan_isna(kind, v):
         return v != v
     if kind in ("s", "u"):
         return v == ""
-    if kind in ("i", "i32", "i8", "u8", "b", "y"):
+    if kind in ("i", "i32", "i8", "u8", "u64", "b", "y"):
         return False
     return v is None                             # d, t, tm, ts, tn, td, o, oi, ob
 
@@ -189,7 +191,7 @@ def pcell(kind, v):
         return float(np.float32(v))               # the plan value as float32 holds it
     if kind == "f":
         return float(v)
-    if kind in ("i", "i32", "i8", "u8", "oi"):
+    if kind in ("i", "i32", "i8", "u8", "u64", "oi"):
         return int(v)
     if kind in ("b", "ob", "obn"):
         return bool(v)
@@ -305,7 +307,7 @@ def dtype_tag(a):
 
 
 def kind_dtype_tag(kind):
-    return {"f": "float64", "f32": "float32", "i": "int64", "i32": "int32", "i8": "int8", "u8": "uint8", "b": "bool", "s": "string",
+    return {"f": "float64", "f32": "float32", "i": "int64", "i32": "int32", "i8": "int8", "u8": "uint8", "u64": "uint64", "b": "bool", "s": "string",
             "u": "U", "d": "datetime64[D]", "t": "datetime64[us]", "tm": "datetime64[ms]",
             "ts": "datetime64[s]", "tn": "datetime64[ns]", "td": "timedelta64[s]", "o": "object", "oi": "object",
             "ob": "object", "obn": "object", "ol": "object", "y": "S"}[kind]
